@@ -32,6 +32,7 @@ def _decode(ctx, b, tag=''):
     try:
         return kevent.from_kd_buf(b)
     except Exception as e:   # noqa - totality is the obligation
+        __import__('vxlib.symx.core', fromlist=['x']).proxy_rejected(e)
         ctx.fail('C01/total', '%s: %s' % (type(e).__name__, e))
         return None
 
